@@ -1,6 +1,7 @@
 package props
 
 import (
+	"context"
 	"errors"
 	"fmt"
 	"strings"
@@ -32,7 +33,7 @@ func init() {
 		Shards:    shards(8, 16),
 		Timeout:   timeouts(12*time.Minute, 90*time.Minute),
 		MinEvals:  100,
-		Required:  []string{"requests_dispatched", "replies_checked", "duplicate_probes", "inversions", "error_replies", "instant_completions", "tag_reuses", "serve_returned", "duplicate_bursts", "boundary_size_results", "held_messages_rechecked", "duplicate_while_writer_busy"},
+		Required:  []string{"requests_dispatched", "replies_checked", "duplicate_probes", "inversions", "error_replies", "instant_completions", "tag_reuses", "serve_returned", "duplicate_bursts", "boundary_size_results", "held_messages_rechecked", "duplicate_while_writer_busy", "boundary_size_requests"},
 		Run:       runC06,
 	})
 }
@@ -109,7 +110,14 @@ func requestWithUID(g *gen.G, kind p9p.FcallType, uid int) p9p.Message {
 
 // resultWithUID builds a handler result carrying uid (message or error).
 func resultWithUID(r rnd, g *gen.G, uid int) hResult {
-	switch r.Intn(13) {
+	switch r.Intn(16) {
+	case 13:
+		// errors that happen to be the context package's: the request was not flushed, so they are results like any other
+		return hResult{err: context.Canceled}
+	case 14:
+		return hResult{err: fmt.Errorf("upstream-%d: %w", uid, context.Canceled)}
+	case 15:
+		return hResult{err: fmt.Errorf("upstream-%d: %w", uid, context.DeadlineExceeded)}
 	case 12:
 		// an error that merely wraps a 9p error: its own text is what must reach the client
 		return hResult{err: fmt.Errorf("wrapped-%d: %w", uid, p9p.ErrPerm)}
@@ -258,7 +266,19 @@ func runC06Script(w *mon.W, no int) {
 		} else {
 			// the handler does not see tags: requests in flight must differ in content so
 			// that invocations can be attributed (bodiless kinds carry no uid)
-			for try := 0; ; try++ {
+			boundaryReq := false
+			if w.Rng.Intn(8) == 0 {
+				boundaryReq = true
+				// a request whose frame is exactly msize, or 1-3 bytes short of it
+				d := w.Rng.Intn(4)
+				data := make([]byte, int(msize)-23-d)
+				for k := range data {
+					data[k] = byte(uid + k)
+				}
+				m = p9p.MessageTwrite{Fid: p9p.Fid(uid), Offset: uint64(uid), Data: data}
+				w.Count("boundary_size_requests", 1)
+			}
+			for try := 0; !boundaryReq; try++ {
 				kind := kinds[w.Rng.Intn(len(kinds))]
 				if w.Rng.Intn(3) == 0 || try > 20 {
 					kind = []p9p.FcallType{p9p.Tread, p9p.Twrite, p9p.Twalk, p9p.Tstat}[w.Rng.Intn(4)]
